@@ -11,7 +11,7 @@ use std::cmp::Ordering;
 use rlib_num_traits::ZeroOne;
 use rlib_show::{Show, ShowSettings};
 
-#[derive(Clone, Copy, PartialEq, Eq)]
+#[derive(Clone, Copy)]
 #[repr(align(16))]
 #[allow(non_camel_case_types)]
 pub struct f80([u8; 10]);
@@ -93,7 +93,56 @@ define_f80_assign_op!(DivAssign, div_assign, div);
 
 define_f80_unary_op!(Neg, neg, "fchs");
 
+macro_rules! define_f80_comparison {
+    ($fun:ident, $set:literal) => {
+        fn $fun(&self, rhs: &f80) -> bool {
+            unsafe {
+                let e: u32;
+                core::arch::asm! {
+                    "fld     TBYTE PTR [{0}]",
+                    "fld     TBYTE PTR [{1}]",
+                    "fucomip st, st(1)",
+                    "fstp    st(0)",
+                    $set,
+                    in(reg) self.0.as_ptr(),
+                    in(reg) rhs.0.as_ptr(),
+                    out("eax") e,
+                    options(nostack)
+                }
+                (e & 1) > 0
+            }
+        }
+    };
+}
+
+impl PartialEq<f80> for f80 {
+    // numeric equality (-0 == +0, NaN != NaN): ZF set and not unordered (PF clear)
+    fn eq(&self, rhs: &f80) -> bool {
+        unsafe {
+            let e: u32;
+            core::arch::asm! {
+                "fld     TBYTE PTR [{0}]",
+                "fld     TBYTE PTR [{1}]",
+                "fucomip st, st(1)",
+                "fstp    st(0)",
+                "sete    al",
+                "setnp   cl",
+                "and     al, cl",
+                in(reg) self.0.as_ptr(),
+                in(reg) rhs.0.as_ptr(),
+                out("eax") e,
+                out("ecx") _,
+                options(nostack)
+            }
+            (e & 1) > 0
+        }
+    }
+}
+
 impl PartialOrd<f80> for f80 {
+    // rhs >= self: CF clear (an unordered comparison sets CF, so NaN compares false)
+    define_f80_comparison!(le, "setae   al");
+
     fn lt(&self, rhs: &f80) -> bool {
         let mut res = std::mem::MaybeUninit::<u32>::uninit();
         unsafe {
@@ -118,12 +167,8 @@ impl PartialOrd<f80> for f80 {
         rhs.lt(self)
     }
 
-    fn le(&self, rhs: &f80) -> bool {
-        !self.gt(rhs)
-    }
-
     fn ge(&self, rhs: &f80) -> bool {
-        !self.lt(rhs)
+        rhs.le(self)
     }
 
     fn partial_cmp(&self, rhs: &f80) -> Option<Ordering> {
